@@ -262,9 +262,19 @@ def multi_check(prop, tier, seed):
                         VEC_ASSUMPTIONS + STR_ASSUMPTIONS + BOX_ASSUMPTIONS, "vec_driver", "vec_check")
 
 
+def c18_check(prop, tier, seed):
+    """C18 speaks about the arena's chunks and about Vec/String growth: both engines count"""
+    table = dict(B.MISMATCH_PROPS)
+    table.update(B.VEC_MISMATCH_PROPS)
+    return engine_check(prop, tier, seed, B.multi_run([B.arena_run, B.vec_run]), table,
+                        ARENA_ASSUMPTIONS + VEC_ASSUMPTIONS, "arena_driver", "arena_check")
+
+
 def check(prop, tier, seed):
     if prop in ("C15", "C16"):
         return multi_check(prop, tier, seed)
+    if prop == "C18":
+        return c18_check(prop, tier, seed)
     if prop in B.ARENA_PROPS:
         return arena_check(prop, tier, seed)
     if prop in B.VEC_PROPS:
